@@ -530,7 +530,8 @@ fn one_case(id: String, rng: &mut Rng, hostile: bool, mech: Mech) -> Case {
         run_op(&mut c, &mut transport, name, &args, &rd, &script, mult);
     }
     // ---- drop: reset and wait ----
-    let pending = rng.below(5) as usize;
+    // mostly a quick reset; now and then a device that needs well over a thousand polls to complete it
+    let pending = if rng.chance(1, 12) { *rng.pick(&[1001usize, 1024, 1500, 3000]) } else { rng.below(5) as usize };
     let rd: Vec<u64> = (0..pending).map(|_| if hostile && rng.chance(1, 4) { rng.next() & 0xff } else { *rng.pick(&[1u64, 3, 11, 15, 0x40, 0x80, 0x4f, 0xcf]) }).collect();
     *script.borrow_mut() = rd.iter().copied().collect();
     let r = guarded(move || drop(transport));
